@@ -233,3 +233,20 @@ Proof.
     [split; [exact H|lia]|exact Hf|left; exact E|right].
   exists l, s'. auto.
 Qed.
+
+(* ------------------------------------------------------------------ avc.GetSliceTypeFromNALU *)
+Lemma get_slice_type_total data :
+  get_slice_type data = Err \/ exists t, get_slice_type data = Ok t /\ t <= 4.
+Proof.
+  unfold get_slice_type. destruct (lenZ data <=? 1)%Z eqn:Hl; [left; reflexivity|].
+  unfold idx. replace ((0 <=? 0) && (0 <? lenZ data))%bool%Z with true by lia.
+  destruct data as [|b0 rest]; [unfold lenZ in Hl; cbn [length] in Hl; lia|].
+  cbn [Z.to_nat nth_error rbind].
+  destruct (negb _); [left; reflexivity|].
+  unfold slice. replace ((0 <=? 1) && (1 <=? lenZ (b0 :: rest)) && (lenZ (b0 :: rest) <=? lenZ (b0 :: rest)))%bool%Z with true by lia.
+  cbn [rbind].
+  destruct (read_ue (rinit _)) as [x s1]. destruct (read_ue s1) as [st s2].
+  destruct (9 <? st) eqn:H9; [left; reflexivity|].
+  destruct (rerr s2); [left; reflexivity|]. right. eexists. split; [reflexivity|].
+  destruct (5 <=? st) eqn:H5; lia.
+Qed.
